@@ -840,6 +840,9 @@ class Typer:
                     return [FuncInfo(mi, f"{fi.qualname}.<locals>.{n.name}", n, None)]
             if f.id in locals_ and locals_[f.id][0]:
                 return list(locals_[f.id][0])
+            tab = self._table_targets(fi, f.id)
+            if tab:
+                return tab
             r = prog.resolve(mi.name, f.id)
             if isinstance(r, (FuncInfo, ClassInfo, ExtRef)):
                 return [r]
@@ -894,6 +897,46 @@ class Typer:
             # type(self.node)(**...) and friends
             return [("dynamic", ast.unparse(f)[:60])]
         return [("unknown", ast.unparse(f)[:60])]
+
+    def _table_targets(self, fi, name):
+        """Callables a local variable may hold when it is read from a dispatch table:
+        `x = TABLE[k]` / `x = TABLE.get(k, default)` with TABLE a constant dict of functions/classes
+        (module constant or class attribute)."""
+        prog = self.prog
+        mi = fi.module
+        out = []
+        for n in ast.walk(fi.node):
+            if not (isinstance(n, ast.Assign) and any(isinstance(t, ast.Name) and t.id == name for t in n.targets)):
+                continue
+            v = n.value
+            base = None
+            default = None
+            if isinstance(v, ast.Subscript):
+                base = v.value
+            elif isinstance(v, ast.Call) and isinstance(v.func, ast.Attribute) and v.func.attr == "get":
+                base = v.func.value
+                default = v.args[1] if len(v.args) > 1 else None
+            if base is None:
+                continue
+            table = None
+            try:
+                if isinstance(base, ast.Name):
+                    table = prog.const(mi.name, base.id)
+                elif isinstance(base, ast.Attribute):
+                    for ci in ([fi.cls] if fi.cls else []) + list(prog.all_classes()):
+                        ca = ci.find_class_attr(base.attr) if ci else None
+                        if ca and ca[1][0] is not None:
+                            table = prog.eval_const(ca[0].module, ca[1][0])
+                            break
+            except Exception:
+                table = None
+            if isinstance(table, dict):
+                out.extend(x for x in table.values() if isinstance(x, (FuncInfo, ClassInfo)))
+                if default is not None and isinstance(default, (ast.Name, ast.Attribute)):
+                    r = prog.resolve_expr_static(mi, default)
+                    if isinstance(r, (FuncInfo, ClassInfo)):
+                        out.append(r)
+        return out
 
     def _is_static_chain(self, node):
         while isinstance(node, ast.Attribute):
